@@ -10,9 +10,11 @@ at the backend, the model replays it through `stepT` / `cancelT` and answers wit
                                      b = no backend progress (parked on a lock), o = progress only outside
                                      the collection prefix, g = progress inside the prefix;
                                      acts = csv of the backend calls performed inside the prefix, in order
-                                            (r = read, +<o> = put object o, -<o> = delete object o; "-" = none);
+                                            (r = read, +<o> = put object o, -<o> = delete object o, x = the body called poison; "-" = none);
                                      fin  = p (Pending) | ok | err (Ready)
   drop <tid>                       the future is dropped
+  ext <acts>                       objects changed under the prefix by something that is not a call on the handle
+                                   (the `&mut self` index methods inside an open callback)
   setro <0|1> / dbro <0|1>         Collection::set_read_only / AndaDB::set_read_only (synchronous)
   state
   skel <method>                    generated guard skeleton class of a Collection method
@@ -32,6 +34,7 @@ def showRes : Res → String
 
 def parseAct (s : String) : Option B :=
   if s = "r" then some .rd
+  else if s = "x" then some .poison
   else if s.startsWith "+" then (s.drop 1).toString.toNat?.map .put
   else if s.startsWith "-" then (s.drop 1).toString.toNat?.map .del
   else none
@@ -178,6 +181,17 @@ def step (c : Cfg) (ln : String) : Cfg × String :=
       | none => (c, "bad-op")
   | ["setro", b] => runSync c (.setRo (b = "1"))
   | ["dbro", b] => runSync c (.dbSetRo (b = "1"))
+  | ["ext", acts] =>
+      -- storage mutations made outside the handle (the open / create callback of a handle not yet published)
+      match parseActs acts with
+      | some a =>
+          let st := a.foldl (fun st b => match b with
+            | .put o => o :: st.filter (· ≠ o)
+            | .del o => st.filter (· ≠ o)
+            | _ => st) c.s.store
+          let c' := { c with s := { c.s with store := st } }
+          (c', line c' "ext" 0)
+      | none => (c, "bad-op")
   | ["state"] => (c, line c "state" 0)
   | ["skel", name] => (c, skelClass name)
   | _ => (c, "bad-op")
